@@ -13,7 +13,8 @@ RULE = ("G-grid + G-nix 'hostile' (tabs, runs of spaces, alignment padding, blan
         "non-canonical gap (differs from its own rebuild); distinct by content hash")
 ASSUMPTIONS = [
     "gaps inside strings, indented strings, paths (including their interpolations) and comments are content, not judged",
-    "padding before an end-of-line comment is reported but not judged (the statement speaks of two tokens)",
+    "a comment that shares its line with code counts as a token of that line: padding of more than one blank around it is judged (rule multi-space-at-comment)",
+    "closing delimiters are judged only where the structure is unambiguous (the opener starts its line, or its line starts with the binding that contains it and no earlier container on that line is still open)",
     "own-line comment indentation is judged only between items of a set / list / let / formals",
 ]
 
